@@ -37,13 +37,17 @@ def zoneName (z : List Nat) : List Nat :=
   let t := trimSuffixDot z
   if hasPrefix t [46] then t.drop 1 else t
 
-/-- "rule `a` matches the dialed host" — the documented rule. -/
+/-- A dialed name as it is compared: a rooted name `example.com.` is the name `example.com`. -/
+def canonName (host : List Nat) : List Nat := trimSuffixDot host
+
+/-- "rule `a` matches the dialed host" — the documented rule; names (dialed and configured) are
+compared without the trailing dot of a fully qualified spelling. -/
 def AddMatches (a : Add) (host : List Nat) (ip : Option (List Nat)) : Prop :=
   match a with
   | .network n ones bits => ∃ x, ip = some x ∧ contains n ones bits x = true
   | .ip b => ∃ x, ip = some x ∧ ipEqual b x = true
-  | .zone z => ip = none ∧ (host = zoneName z ∨ IsSubdomainOf host (zoneName z))
-  | .host h => ip = none ∧ host = trimSuffixDot h
+  | .zone z => ip = none ∧ (canonName host = zoneName z ∨ IsSubdomainOf (canonName host) (zoneName z))
+  | .host h => ip = none ∧ canonName host = trimSuffixDot h
 
 theorem normZone_eq (z : List Nat) : normZone z = 46 :: zoneName z := by
   unfold normZone zoneName
@@ -72,8 +76,8 @@ private theorem zone_match_iff (z host : List Nat) :
 
 private theorem dial_none (p : State) (host : List Nat) :
     dialerForRequest p host none = true ↔
-      (∃ z, z ∈ p.zones ∧ (hasSuffix host z || host == z.drop 1) = true) ∨
-      (∃ h, h ∈ p.hosts ∧ (h == host) = true) := by
+      (∃ z, z ∈ p.zones ∧ (hasSuffix (trimSuffixDot host) z || trimSuffixDot host == z.drop 1) = true) ∨
+      (∃ h, h ∈ p.hosts ∧ (h == trimSuffixDot host) = true) := by
   rw [← List.any_eq_true, ← List.any_eq_true]
   unfold dialerForRequest
   simp only []
@@ -102,8 +106,8 @@ theorem dial_add (p : State) (a : Add) (host : List Nat) (ip : Option (List Nat)
     | network n ones bits => simp [State.add, AddMatches]
     | ip b => simp [State.add, AddMatches]
     | zone z =>
-      have hz := zone_match_iff z host
-      simp only [State.add, AddMatches, List.mem_append, List.mem_singleton, true_and, ← hz]
+      have hz := zone_match_iff z (trimSuffixDot host)
+      simp only [State.add, AddMatches, canonName, List.mem_append, List.mem_singleton, true_and, ← hz]
       constructor
       · rintro (⟨w, hw | rfl, hm⟩ | h)
         · exact Or.inl (Or.inl ⟨w, hw, hm⟩)
@@ -114,7 +118,7 @@ theorem dial_add (p : State) (a : Add) (host : List Nat) (ip : Option (List Nat)
         · exact Or.inr h
         · exact Or.inl ⟨_, Or.inr rfl, hm⟩
     | host h =>
-      simp only [State.add, AddMatches, List.mem_append, List.mem_singleton, true_and]
+      simp only [State.add, AddMatches, canonName, List.mem_append, List.mem_singleton, true_and]
       constructor
       · rintro (h1 | ⟨w, hw | rfl, hm⟩)
         · exact Or.inl (Or.inl h1)
@@ -261,6 +265,12 @@ example : dialerForRequest (run noOracles {} cfg1) exCom none = true := by decid
 example : dialerForRequest (run noOracles {} cfg1) aExCom none = true := by decide
 example : dialerForRequest (run noOracles {} cfg1) aexCom none = false := by decide
 example : dialerForRequest (run noOracles {} [.fromString exCom]) aExCom none = false := by decide
+/-- Rooted spellings (regression for the repaired defect `trailing-dot-never-matches`): "ex.com." and
+"a.ex.com." dialed against the same rules, and a rule given with the dot against a dialed name without. -/
+example : dialerForRequest (run noOracles {} cfg1) (exCom ++ [46]) none = true := by decide
+example : dialerForRequest (run noOracles {} cfg1) (aExCom ++ [46]) none = true := by decide
+example : dialerForRequest (run noOracles {} [.fromString (exCom ++ [46])]) (exCom ++ [46]) none = true := by decide
+example : dialerForRequest (run noOracles {} cfg1) (aexCom ++ [46]) none = false := by decide
 example : dialerForRequest (run noOracles {} [.call (.network [10, 0, 0, 0] 8 32)]) [] (some [10, 9, 8, 7]) = true := by decide
 example : dialerForRequest (run noOracles {} [.call (.network [10, 0, 0, 0] 8 32)]) [] (some [11, 9, 8, 7]) = false := by decide
 example : dialerForRequest (run noOracles {} [.call (.ip [1, 2, 3, 4])]) []
